@@ -859,4 +859,45 @@ theorem merge_accepts_disjoint_struct_children :
       (.cons { name := "Y".toList, key := "IN".toList, optional := false, embedded := false } (.prim .string) .nil)) = none := by
   decide
 
+/-! ### round 5d: a caller that selects the loader and hands it the bytes (core/configcenter) -/
+
+/-- **the config center adds nothing**: for a recognised `Type` (any case) and a non-empty value, what
+`NewConfigCenter(...).GetConfig()` yields for (Type, bytes) is the value of the Type's loader on EXACTLY those bytes; an
+unknown Type and the empty value are errors whatever the rest. -/
+theorem configcenter_value_is_loaders_value (run : Fmt → Str → R Val) (typ data : Str) :
+    (∀ f, ccLoaderOf typ = some f → data ≠ [] → ccValue run typ data = run f data) ∧
+    (ccLoaderOf typ = none → ccValue run typ data = .error .err) ∧
+    (ccValue run typ [] = .error .err) ∧
+    ccLoaderOf (lower typ) = ccLoaderOf typ := by
+  refine ⟨?_, ?_, ?_, ?_⟩
+  · intro f hf hd; simp [ccValue, ccValueWith, hf, hd]
+  · intro hn; simp [ccValue, ccValueWith, hn]
+  · simp only [ccValue, ccValueWith]; cases ccLoaderOf typ <;> simp
+  · unfold ccLoaderOf; rw [lower_idem]
+
+/-- **format independence through the config center** (from `formats_agree_env`): two subscribed values holding the
+renderings of one document (no null) in the formats of their Types load to the same verdict and value, for every pair
+of recognised Types, every type of the family, every environment. -/
+theorem configcenter_format_independent (o : Opts) (fs : Fields) (d : J) (t : T) (hd : plainDoc d = true)
+    (ht : embT d = some t) (t1 t2 : Str) (f1 f2 : Fmt) (h1 : ccLoaderOf t1 = some f1) (h2 : ccLoaderOf t2 = some f2)
+    (run : Fmt → Str → R Val) (c1 c2 : Str) (n1 : c1 ≠ []) (n2 : c2 ≠ [])
+    (hr1 : run f1 c1 = loadFmtO o fs d t f1) (hr2 : run f2 c2 = loadFmtO o fs d t f2) :
+    ccValue run t1 c1 = ccValue run t2 c2 := by
+  have a := formats_agree_env o fs d t hd ht
+  have all : ∀ f, loadFmtO o fs d t f = loadJsonO o fs d := by
+    intro f; cases f
+    · rfl
+    · exact a.1
+    · exact a.2
+  simp [ccValue, ccValueWith, h1, h2, n1, n2, hr1, hr2, all]
+
+example : ccLoaderOf "YAML".toList = some .yaml ∧ ccLoaderOf "Json".toList = some .json ∧ ccLoaderOf "ini".toList = none := by decide
+
+/-- WITNESS (seeded C17-9): a caller that trims the value first is a different function of the bytes - a loader that
+sees the final line break (YAML block scalar) gives another value, and the value of blanks only becomes an error. -/
+theorem trimmed_bytes_differ :
+    ccValueWith trimWs (fun _ s => .ok (.str s)) "yaml".toList "k: |\n  v\n".toList = .ok (.str "k: |\n  v".toList) ∧
+    ccValue (fun _ s => .ok (.str s)) "yaml".toList "k: |\n  v\n".toList = .ok (.str "k: |\n  v\n".toList) := by
+  constructor <;> decide
+
 end GoZero.C17
